@@ -329,6 +329,7 @@ type TSum struct {
 	HasDef   bool
 	Patterns []string
 	Posix    []string // accumulated posix-patterns
+	Range    string   // the range restriction written on the built-in at the bottom of the chain ("" = none)
 	Enums    []string // members of the enumeration the chain ends in
 	Path     string   // leafref path
 	Members  []string // base kinds of the union members, in written order
@@ -580,7 +581,7 @@ func (r *Resolver) ResolveType(t *TypeRef, depth int) *TSum {
 	}
 	var base *TSum
 	if builtins[t.Name] {
-		base = &TSum{Kind: t.Name, Enums: append([]string{}, t.Enums...), Path: t.Path, Frac: t.Frac}
+		base = &TSum{Kind: t.Name, Enums: append([]string{}, t.Enums...), Path: t.Path, Frac: t.Frac, Range: t.Range}
 		for _, m := range t.Members {
 			ms := r.ResolveType(m, depth+1)
 			if ms.Err != "" {
